@@ -16,6 +16,7 @@ func init() {
 	vrt.Register("C11_uses", Uses)
 	vrt.Register("C11_method_chains", MethodChains)
 	vrt.Register("C11_more_shapes", MoreShapes)
+	vrt.Register("C11_index_of_another_type", IndexOfAnotherType)
 }
 
 type T struct {
@@ -411,5 +412,40 @@ func MoreShapes() {
 	} else {
 		vrt.Assert(err != nil || got == "[]", "navigation that cannot be completed: an error or empty output, never a value: "+c.expr)
 	}
+	vrt.Cover("done")
+}
+
+// an index or key whose type is not the container's index/key type does not
+// navigate anywhere in Go; it must not silently resolve to some element
+// (float -> int truncation, int -> string code point, numeric string -> int ...)
+func IndexOfAnotherType() {
+	im := map[int]string{1: leaf(), 2: leaf(), 65: leaf()}
+	sm := map[string]string{"A": leaf(), "1": leaf(), "": leaf()}
+	xs := []string{leaf(), leaf(), leaf()}
+	ctx := plush.NewContext()
+	ctx.Set("im", im)
+	ctx.Set("sm", sm)
+	ctx.Set("xs", xs)
+	ctx.Set("f", 1.5)
+	ctx.Set("g", 1.0)
+	ctx.Set("n", 65)
+	ctx.Set("one", "1")
+	ctx.Set("t", true)
+	ctx.Set("i8", int8(1))
+	ctx.Set("u", uint(2))
+	exprs := []string{
+		"im[1.5]", "im[f]", "im[g]", "im[\"1\"]", "im[one]", "im[t]", "im[nil]",
+		"sm[65]", "sm[n]", "sm[1]", "sm[1.0]", "sm[t]",
+		"xs[1.5]", "xs[f]", "xs[\"1\"]", "xs[one]", "xs[t]",
+	}
+	e := exprs[vrt.Choice(len(exprs))]
+	got, err := render("[<%= "+e+" %>]", ctx)
+	vrt.Assert(err != nil || got == "[]", "an index of another type: an error or empty output, never some element: "+e)
+	// integer kinds other than int: refused, or the element with the numerically equal index
+	exprs2 := []string{"im[i8]", "xs[i8]", "im[u]", "xs[u]"}
+	wants := []string{im[1], xs[1], im[2], xs[2]}
+	k := vrt.Choice(len(exprs2))
+	got, err = render("[<%= "+exprs2[k]+" %>]", ctx)
+	vrt.Assert(err != nil || got == "[]" || got == "["+wants[k]+"]", "an index of another integer kind: refused, or the numerically equal element: "+exprs2[k])
 	vrt.Cover("done")
 }
